@@ -38,9 +38,10 @@ type c10Case struct {
 	Prelude string         `json:"prelude,omitempty"`
 	Frames  []hostileFrame `json:"frames,omitempty"`
 	// size cases
-	Limit int  `json:"limit,omitempty"`
-	Delta int  `json:"delta,omitempty"` // body size = Limit + Delta
-	Batch bool `json:"batch,omitempty"`
+	Limit int    `json:"limit,omitempty"`
+	Delta int    `json:"delta,omitempty"` // body size = Limit + Delta
+	Batch bool   `json:"batch,omitempty"`
+	Pad   string `json:"pad,omitempty"` // where the filler goes: inside (a string param, default) | leading | trailing | both | between
 }
 
 var c10Vals = []string{"0", "1", "-1", "2", "1.5", "1e99", "-0", "18446744073709551615", "-9223372036854775808", `"s"`, `""`, `"1"`, "true", "false", "null", "[]", "[1]", "[[1]]", "{}", `{"a":1}`, `[{"a":[1]}]`, "9007199254740993", `"\u0000"`,
@@ -390,7 +391,19 @@ func runC10Size(c c10Case) *Violation {
 	if pad < 0 {
 		return nil
 	}
-	body := head + strings.Repeat("a", pad) + tail
+	var body string
+	switch c.Pad {
+	case "leading":
+		body = strings.Repeat(" ", pad) + head + tail
+	case "trailing":
+		body = head + tail + strings.Repeat("\n", pad)
+	case "both":
+		body = strings.Repeat("\t", pad/2) + head + tail + strings.Repeat(" ", pad-pad/2)
+	case "between":
+		body = strings.Replace(head, `,"method"`, `,`+strings.Repeat(" ", pad)+`"method"`, 1) + tail
+	default:
+		body = head + strings.Repeat("a", pad) + tail
+	}
 	if len(body) != size {
 		return nil
 	}
@@ -568,7 +581,9 @@ func TestC10(t *testing.T) {
 		for _, L := range []int{64, 100, 1000, 4096, 65536} {
 			for _, d := range []int{-1, 0, 1} {
 				for _, batch := range []bool{false, true} {
-					run(t, c10Case{Target: "size", Limit: L, Delta: d, Batch: batch})
+					for _, pad := range []string{"inside", "leading", "trailing", "both", "between"} {
+						run(t, c10Case{Target: "size", Limit: L, Delta: d, Batch: batch, Pad: pad})
+					}
 				}
 			}
 		}
@@ -577,7 +592,8 @@ func TestC10(t *testing.T) {
 	rec.Rapid(t, "rapid", func(rt *rapid.T) {
 		switch rapid.IntRange(0, 9).Draw(rt, "target") {
 		case 0:
-			run(rt, c10Case{Target: "size", Limit: rapid.IntRange(64, 65536).Draw(rt, "limit"), Delta: rapid.SampledFrom([]int{-1, 0, 1, 1, 2, 100}).Draw(rt, "delta"), Batch: rapid.Bool().Draw(rt, "batch")})
+			run(rt, c10Case{Target: "size", Limit: rapid.IntRange(64, 65536).Draw(rt, "limit"), Delta: rapid.SampledFrom([]int{-1, 0, 1, 1, 2, 100}).Draw(rt, "delta"), Batch: rapid.Bool().Draw(rt, "batch"),
+				Pad: rapid.SampledFrom([]string{"inside", "leading", "trailing", "both", "between"}).Draw(rt, "pad")})
 		default:
 			c := c10Case{Target: rapid.SampledFrom([]string{"server", "server", "client", "client+handler"}).Draw(rt, "tgt")}
 			if rapid.Bool().Draw(rt, "prelude") {
